@@ -267,6 +267,10 @@ def run(ctx):
                         ctx.bad('C11.4-exact-numbers', inst, '%s is converted to f64 before comparing: integers above 2^53 are rounded (2^53 and 2^53+1 both compare Equal to 9007199254740992.0)' % st['rv']['from'],
                                 ctx.where(FB, ln=st['ln']), key='CAST:%s:int-as-f64' % p)
 
+    ctx.rule('C11.4-bigint-truncation', 'the 8-digit reader bigint_to_u64 is only applied to operands known to have at most 8 digits', floor=2)
+    from ..families import check_bigint_truncation
+    check_bigint_truncation(ctx, P, 'C11.4-bigint-truncation')
+
     # ---------------- clause 5: twin --------------------------------------------------------------------------------------
     ctx.rule('C11.5-twin-pairs', 'BorrowedTerm::cmp orders every pair of variants exactly as OwnedTerm::cmp does (same rank table, same constants, same comparison recipe per arm)', floor=289)
     To, Tb = tabs['owned'], tabs['borrowed']
